@@ -9,7 +9,10 @@ reference model), O-RT, O-ERR, O-TORN (DESIGN §6.4).
 
 from __future__ import annotations
 
+import builtins
 import io
+import os
+import urllib.request
 
 from ..core.eventlog import EventLog
 from ..core.proc import normalised_recursion
@@ -19,6 +22,8 @@ from ..seams.clock import SimClock
 from ..seams.stream import InjectedReadError, SimStream, apply_data_fault
 
 DEFAULT_BUFSIZE = 16 * 1024
+_REAL_OPEN = builtins.open
+_REAL_URLOPEN = urllib.request.urlopen
 
 
 class Engine:
@@ -390,10 +395,18 @@ def _run_load(inv_mod, data, cuts, bufsize, via, fail, log, clock):
             if via == "load":
                 inv = inv_mod.load(st)
             elif via == "fetch_path":
-                inv_mod.open = lambda p, mode="r", *a, **k: st  # module-global seam, shadows the builtin
+                # the seam is the open() of this one path, however the code spells it (open, io.open, Path.open)
+                def _sim_open(file, *a, **k):
+                    if not isinstance(file, int) and os.fspath(file) == "/sim/objects.inv":
+                        return st
+                    return _REAL_OPEN(file, *a, **k)
+
+                builtins.open = io.open = _sim_open
                 inv = inv_mod.fetch_inventory("/sim/objects.inv")
             else:
-                inv_mod.urlopen = lambda u, timeout=None, *a, **k: st
+                fake = lambda u, *a, **k: st  # noqa: E731 - the seam is urlopen, however the module refers to it
+                inv_mod.urlopen = fake
+                urllib.request.urlopen = fake
                 inv = inv_mod.fetch_inventory("https://sim.invalid/objects.inv")
             res["inv"] = inv
             outcome = ("ok", _canon(inv))
@@ -405,10 +418,10 @@ def _run_load(inv_mod, data, cuts, bufsize, via, fail, log, clock):
             outcome = ("exc", type(e).__name__, "")
     finally:
         inv_mod._BUFSIZE = old_buf
-        inv_mod.__dict__.pop("open", None)
-        from urllib.request import urlopen as _real_urlopen
-
-        inv_mod.urlopen = _real_urlopen
+        builtins.open = io.open = _REAL_OPEN
+        urllib.request.urlopen = _REAL_URLOPEN
+        if "urlopen" in inv_mod.__dict__:
+            inv_mod.urlopen = _REAL_URLOPEN
     res.update(outcome=outcome, n_reads=st.n_reads, sizes=st.sizes, closed=st.closed,
                fault_delivered=st.fault_delivered,
                eof_in_header=_eof_in_header(data, st))
